@@ -25,15 +25,15 @@ SPEC = {
                         "the text model of a line keeps spellings; gfapy writes eagerly parsed tags (i, f, J) canonically even at level 0, so the line.parse correspondence asks the model about the written text and the value comparison is the oracle's"],
     },
     "C02": {
-        "LEAN": {"modules": ["GfaProofs.Bridge.Geometry", "GfaProofs.Bridge.Connect", "GfaProofs.C02", "GfaProofs.C02Rename"], "support": ["GfaModel.Graph", "GfaModel.GraphObs", "GfaProofs.Lemmas.Graph", "GfaProofs.C09"],
-                 "theorems": ["Gfa.C02.closed_reachable", "Gfa.C02.rename_closed", "Gfa.C02.renameIn_segRefs", "Gfa.C02.renameIn_itemRefs",
+        "LEAN": {"modules": ["GfaProofs.Bridge.Geometry", "GfaProofs.Bridge.Connect", "GfaProofs.C02", "GfaProofs.C02Rename", "GfaProofs.C05Edit"], "support": ["GfaModel.Graph", "GfaModel.GraphObs", "GfaModel.Edit", "GfaProofs.Lemmas.Graph", "GfaProofs.C09"],
+                 "theorems": ["Gfa.C02.closed_reachable", "Gfa.C05Edit.closed_reachable", "Gfa.C05Edit.setTag_closed", "Gfa.C05Edit.rmText_closed", "Gfa.C02.rename_closed", "Gfa.C02.renameIn_segRefs", "Gfa.C02.renameIn_itemRefs",
                               "Gfa.C02.closed_reachable_partial", "Gfa.C02.step_closed", "Gfa.C02.add_closed", "Gfa.C02.rm_closed",
                               "Gfa.C02.rmIdx_closed", "Gfa.C02.rmCore_closed", "Gfa.C02.resetAll_closed", "Gfa.C02.grow_adopt", "Gfa.C02.rm_no_zombie", "Gfa.C02.reference_resolves", "Gfa.C02.ensureRefs_grow",
                               "Gfa.C02.cascade_closed", "Gfa.C02.live_not_dependent", "Gfa.C09.nodup_reachable",
                               "Gfa.Bridge.Geometry.refkey_table", "Gfa.Bridge.Geometry.linkKey_table", "Gfa.Bridge.Geometry.gapKey_table",
                               "Gfa.Bridge.Connect.referenceFields_table", "Gfa.Bridge.Connect.dependentLines_table",
                               "Gfa.Bridge.Connect.otherReferences_table", "Gfa.Bridge.Connect.gap_sets_link_paths"]},
-        "ASSUMPTIONS": ["closure is proved for every history of add_line / rm / rename (closed_reachable); a rename is given an identifier in use "
+        "ASSUMPTIONS": ["closure is proved for every history of add_line / rm by identifier / rm(line) and disconnect / rename / set and delete of a tag (C05Edit.closed_reachable; closed_reachable for the first three and rename); a rename is given an identifier in use "
                         "(not empty, not '*') and a new identifier that is not empty, not '*' and free of ',' and ' ' (okOp) - other new identifiers "
                         "are refused by the library's field validation",
                         "symmetry reference/back-reference: back-reference collections are queries over forward references in the model, so for that "
@@ -60,11 +60,12 @@ SPEC = {
                         "correspondence (model vs library on sampled orders)"],
     },
     "C05": {
-        "LEAN": {"modules": ["GfaProofs.C05", "GfaProofs.C05Rename", "GfaProofs.C14Frame", "GfaProofs.Bridge.Connect"], "support": ["GfaModel.Graph", "GfaProofs.C02", "GfaProofs.C02Rename"],
+        "LEAN": {"modules": ["GfaProofs.C05", "GfaProofs.C05Rename", "GfaProofs.C05Edit", "GfaProofs.C14Frame", "GfaProofs.Bridge.Connect"], "support": ["GfaModel.Graph", "GfaModel.Edit", "GfaProofs.C02", "GfaProofs.C02Rename"],
                  "theorems": ["Gfa.Bridge.Connect.dependentLines_table", "Gfa.Bridge.Connect.otherReferences_table", "Gfa.Bridge.Connect.gap_sets_link_paths",
                               "Gfa.C05.rename_frame", "Gfa.C05.rename_mentions", "Gfa.C05.rename_carrier", "Gfa.C05.renameIn_frame",
                               "Gfa.C05.cascade_sound", "Gfa.C05.cascade_complete", "Gfa.C05.rm_lines", "Gfa.C05.rmCore_lines", "Gfa.C05.rm_lines_origin",
-                              "Gfa.C05.rm_kept_unchanged", "Gfa.C14Frame.rm_frame", "Gfa.C14Frame.rmIdx_keeps", "Gfa.C14Frame.cascade_plain",
+                              "Gfa.C05.rm_kept_unchanged", "Gfa.C05Edit.setTag_frame", "Gfa.C05Edit.editTag_refs", "Gfa.C05Edit.editTag_name", "Gfa.C05Edit.rmText_is_cascade",
+                              "Gfa.C05Edit.nodup_reachable", "Gfa.C05Edit.closed_reachable", "Gfa.C14Frame.rm_frame", "Gfa.C14Frame.rmIdx_keeps", "Gfa.C14Frame.cascade_plain",
                               "Gfa.C05.rm_set_rest", "Gfa.C05.rm_name_gone", "Gfa.C02.rmIdx_closed", "Gfa.C02.dropItems_itemRefs",
                               "Gfa.C09.rename_nodup", "Gfa.G.renameIn_name"]},
         "ASSUMPTIONS": ["the refinement 'state = parse of the denoted text' is decided by the oracle (independent text model + reparse) and the "
@@ -75,7 +76,12 @@ SPEC = {
                         "same text (rm_frame: such a line goes only with a removed segment it mentions, cascade_plain); "
                         "a rename substitutes the identifier in every mention (rename_mentions), the renamed line carries the new identifier "
                         "(rename_carrier) and every line that does not mention the old identifier is literally unchanged (rename_frame)",
-                        "set/delete of a tag is not modelled in Lean (oracle only)"],
+                        "rm(line) / disconnect and set / delete of a tag are modelled (GfaModel/Edit.lean: the line is designated by its written form; the text of "
+                        "the new tag is the library's, its place in the line is the model's) and run through the same correspondence; proved: a tag edit "
+                        "changes neither record type, identifier nor any reference of the line, leaves the positional fields and every other line as "
+                        "they were, replaces an existing tag in place and appends a new one (setTag_frame, editTag_refs), and the invariants of C02/C09 "
+                        "hold for every history of all these mutations (C05Edit.closed_reachable, nodup_reachable); setting the ID tag of a link (a "
+                        "rename) and which values a tag accepts are the oracle's"],
     },
     "C04": {
         "LEAN": {"modules": ["GfaProofs.Bridge.Regex", "GfaProofs.Lemmas.Regex", "GfaProofs.C20", "GfaProofs.Bridge.LineFmt", "GfaProofs.C04Line", "GfaProofs.C04Validate"],
@@ -127,8 +133,8 @@ SPEC = {
                         "only references for which no placeholder can be made (precheck_necessary)"],
     },
     "C09": {
-        "LEAN": {"modules": ["GfaProofs.C09"], "support": ["GfaModel.Graph", "GfaProofs.Lemmas.Graph"],
-                 "theorems": ["Gfa.C09.nodup_reachable", "Gfa.C09.step_nodup", "Gfa.C09.add_nodup", "Gfa.C09.rm_nodup",
+        "LEAN": {"modules": ["GfaProofs.C09", "GfaProofs.C05Edit"], "support": ["GfaModel.Graph", "GfaModel.Edit", "GfaProofs.Lemmas.Graph"],
+                 "theorems": ["Gfa.C09.nodup_reachable", "Gfa.C05Edit.nodup_reachable", "Gfa.C05Edit.setTag_nodup", "Gfa.C05Edit.rmText_nodup", "Gfa.C05Edit.editTags_idTag", "Gfa.C09.step_nodup", "Gfa.C09.add_nodup", "Gfa.C09.rm_nodup",
                               "Gfa.C09.rename_nodup", "Gfa.C09.lookup_sound", "Gfa.C09.lookup_none", "Gfa.C09.lookup_complete",
                               "Gfa.C09.rename_dup_raises", "Gfa.C09.add_dup_raises", "Gfa.C09.add_selfref_raises", "Gfa.C09.add_complement_noop",
                               "Gfa.C09.setName_name", "Gfa.G.renameIn_name"]},
